@@ -176,3 +176,67 @@ func ZZ_C18(shape int) {
 	verifhook.Assert(errorsInBulk == anyFailed, "C18 failure is signalled exactly when an element failed")
 	verifhook.Canary()
 }
+
+// zzElementJSON is a bulk element as a client may send it: members it omits are absent.
+type zzElementJSON struct {
+	Action string           `json:"action"`
+	IK     *string          `json:"ik,omitempty"`
+	Data   *json.RawMessage `json:"data,omitempty"`
+}
+
+const ZZ_C18TwoN = 2
+
+func ZZ_C18TwoDesc(i int) string {
+	return fmt.Sprintf("two bulk requests one after the other through bulkHandler, %d element(s) each; the second may omit idempotency keys and payload members the first supplied", i+1)
+}
+
+// ZZ_C18Two: a bulk request is processed on its own terms: its elements run with their
+// own idempotency keys and payloads whatever an earlier request carried at the same
+// positions.
+func ZZ_C18Two(shape int) {
+	n := shape + 1
+	l := &zzLedger{}
+	send := func(elems []zzElementJSON) int {
+		body, err := json.Marshal(elems)
+		if err != nil {
+			panic(err)
+		}
+		r := (&http.Request{Method: http.MethodPost, URL: &url.URL{Path: "/l1/_bulk"}, Header: http.Header{}, Body: &zzBody{data: body}}).
+			WithContext(backend.ContextWithLedger(context.Background(), l))
+		w := &zzRecorder{}
+		bulkHandler(w, r)
+		return w.status
+	}
+	first := make([]zzElementJSON, n)
+	for i := range first {
+		ik := fmt.Sprintf("first-%d", i)
+		data := json.RawMessage(zzPayloads[ActionAddMetadata])
+		first[i] = zzElementJSON{Action: ActionAddMetadata, IK: &ik, Data: &data}
+	}
+	send(first)
+	verifhook.Assert(len(l.calls) == n, "C18 first bulk is executed element by element")
+	l.calls = nil
+	second := make([]zzElementJSON, n)
+	var want []zzCall
+	for i := range second {
+		a := []string{ActionAddMetadata, ActionDeleteMetadata}[verifhook.Choose(fmt.Sprintf("action%d", i), 2)]
+		data := json.RawMessage(zzPayloads[a])
+		second[i] = zzElementJSON{Action: a, Data: &data}
+		ik := ""
+		if verifhook.Choose(fmt.Sprintf("ik%d", i), 2) == 1 {
+			ik = fmt.Sprintf("second-%d", i)
+			second[i].IK = &ik
+		}
+		want = append(want, zzCall{a, ik})
+	}
+	status := send(second)
+	verifhook.Reach("second-processed")
+	verifhook.Assert(status == http.StatusOK, "C18 a well-formed bulk is not answered with 200")
+	verifhook.Assert(len(l.calls) == len(want), "C18 the second bulk does not execute exactly its own elements")
+	if len(l.calls) == len(want) {
+		for i := range want {
+			verifhook.Assert(l.calls[i] == want[i], "C18 an element runs with an action or idempotency key it did not carry")
+		}
+	}
+	verifhook.Canary()
+}
